@@ -190,8 +190,11 @@ func (changes *Changes) Copy(dest string) error {
 
 	dirname := filepath.Base(changes.Filename)
 	err := internal.Copy(changes.Filename, dest+"/"+dirname)
+	if err != nil {
+		return err
+	}
 	changes.Filename = dest + "/" + dirname
-	return err
+	return nil
 }
 
 // Move the .changes file and all referenced files to the directory
@@ -222,8 +225,11 @@ func (changes *Changes) Move(dest string) error {
 
 	dirname := filepath.Base(changes.Filename)
 	err := os.Rename(changes.Filename, dest+"/"+dirname)
+	if err != nil {
+		return err
+	}
 	changes.Filename = dest + "/" + dirname
-	return err
+	return nil
 }
 
 // Remove the .changes file and any associated files. This function will
